@@ -12,6 +12,7 @@ RELATED = {"C01": ["C01", "C02", "C03", "C04"], "C02": ["C02", "C01", "C04"], "C
            "C11": ["C11", "C12"], "C12": ["C12", "C11"], "C13": ["C13", "C14"], "C14": ["C14", "C13"], "C15": ["C15", "C17"],
            "C16": ["C16", "C15", "C17"], "C17": ["C17"], "C18": ["C18"], "C19": ["C19", "C07"], "C20": ["C20", "C11", "C12"]}
 NOT_BENIGN = {
+    "C08-D": "handshaking_lemma computes the deficit as -ntop % size: wraps around for unsigned NumPy joint degree keys; the patch's own new assert then fails inside sample_jds_from_jdd (found by C05)",
     "C05-B": "handshaking_lemma computes the deficit as -total % size: for joint degree keys that are unsigned NumPy integers the negation wraps around and no stub is added (column sums stay non-divisible); the pristine code handles such keys",
     "C08-B": "handshaking_lemma computes the deficit as (-total) % size: wraps around for unsigned NumPy joint degree keys, so the sampled sequence violates the handshake condition (found by C05)",
 }
